@@ -47,6 +47,13 @@ CHECKS["C05"] = (
     "DESIGN.md §2 C05",
 )
 
+CHECKS["C10"] = (
+    "before/after monitor wrapped (class level) around the real re-centring step inside real fits and on random states, with a sensitivity-calibrated tolerance; float64 evaluation of the defining inner product on every state visited; postcondition on direct calls of the real Householder routine",
+    "Held on every re-centring call and every mixing matrix observed (logistic / linear / joint / mixture / shared-speed, dimension 2-8) plus direct calls with hostile directions (exact zeros, negative, 6 orders of magnitude) and scalar / diagonal / full metrics. Exploration.",
+    "Trusts the state's own v0 / metric nodes as the direction and metric (their closed forms are C09's job); tolerance tied to the float32 exp/log round trip via a measured sensitivity.",
+    "DESIGN.md §2 C10",
+)
+
 NOT_YET = {}
 
 QUICK_BASELINE = (
